@@ -4,12 +4,14 @@ import (
 	"bufio"
 	"context"
 	"encoding/json"
+	"errors"
 	"flag"
 	"fmt"
 	"math/rand"
 	"os"
 	"sort"
 	"strings"
+	"sync"
 	"time"
 
 	proto "github.com/kubewharf/kubebrain-client/api/v2rpc"
@@ -85,6 +87,8 @@ type reader struct {
 	n       int
 	agree   *[]string
 	eng     string
+	// fault marks the reads issued while a transient iterator error is armed (they may fail; if they answer, the answer counts)
+	fault bool
 }
 
 func kvList(env *kb.Env, kvs []*proto.KeyValue) []interface{} {
@@ -103,7 +107,7 @@ func errStr(err error) string {
 }
 
 func (r *reader) note(s string) {
-	if r.agree != nil {
+	if r.agree != nil && !r.fault {
 		*r.agree = append(*r.agree, s)
 	}
 }
@@ -133,7 +137,7 @@ func (r *reader) get(k int, rev uint64) {
 	env := r.env
 	r.n++
 	p := r.proc()
-	env.Rec.Log(gate.Event{"e": "RInvoke", "p": p, "op": "get", "k": k, "lo": k, "hi": k + 1, "rev": gate.Clip(rev), "limit": 0, "pfx": -1})
+	env.Rec.Log(gate.Event{"e": "RInvoke", "p": p, "op": "get", "k": k, "lo": k, "hi": k + 1, "rev": gate.Clip(rev), "limit": 0, "pfx": -1, "fault": r.fault})
 	rr := r.ap().get(env.Keys.Raw(k), rev)
 	err := rr.err
 	ev := gate.Event{"e": "RReturn", "p": p, "op": "get", "err": errStr(err), "hdr": 0, "kvs": []interface{}{}, "more": false, "count": 0, "api": r.apiName(), "ecount": -1}
@@ -153,7 +157,7 @@ func (r *reader) list(lo, hi bound, rev uint64, limit int64, pfx int) {
 	env := r.env
 	r.n++
 	p := r.proc()
-	env.Rec.Log(gate.Event{"e": "RInvoke", "p": p, "op": "list", "k": 0, "lo": lo.ceil, "hi": hi.ceil, "rev": gate.Clip(rev), "limit": limit, "pfx": pfx,
+	env.Rec.Log(gate.Event{"e": "RInvoke", "p": p, "op": "list", "k": 0, "lo": lo.ceil, "hi": hi.ceil, "rev": gate.Clip(rev), "limit": limit, "pfx": pfx, "fault": r.fault,
 		"rawlo": strings.TrimPrefix(lo.raw, env.Prefix), "rawhi": strings.TrimPrefix(hi.raw, env.Prefix)})
 	rr := r.ap().list([]byte(lo.raw), []byte(hi.raw), rev, limit)
 	err := rr.err
@@ -275,6 +279,49 @@ func (r *reader) sweep(rnd *rand.Rand, nkeys int, base, cur uint64, frac float64
 			}
 		}
 	}
+}
+
+// faultSweep repeats point reads and limited range reads with one transient error of the engine's iterator armed (the
+// first or the second Next of the read fails once): the read may fail, but an answer is judged like any other. (Unlimited
+// lists, counts and streams start over after a second: those run in streambulk.)
+func (r *reader) faultSweep(rnd *rand.Rand, nkeys int, base, cur uint64) int {
+	env := r.env
+	bs := boundsFor(env, nkeys)
+	n := 0
+	arm := func(nth int) {
+		fired := false
+		var mu sync.Mutex
+		env.Store.IterFault = func(proc string, iter, k int) error {
+			mu.Lock()
+			defer mu.Unlock()
+			if !fired && k == nth {
+				fired = true
+				return errors.New("injected transient iterator error")
+			}
+			return nil
+		}
+	}
+	r.fault = true
+	defer func() { r.fault = false; env.Store.IterFault = nil }()
+	revs := []uint64{0, cur}
+	if cur > base+1 {
+		revs = append(revs, base+1+uint64(rnd.Intn(int(cur-base-1))))
+	}
+	for k := 1; k <= nkeys; k++ {
+		for _, rev := range revs {
+			arm(1)
+			r.get(k, rev)
+			n++
+		}
+	}
+	for _, rev := range revs {
+		for lim := int64(1); lim <= int64(nkeys); lim++ {
+			arm(1 + rnd.Intn(3))
+			r.list(bs[0], bs[len(bs)-1], rev, lim, -1)
+			n++
+		}
+	}
+	return n
 }
 
 type seqReport struct {
@@ -445,6 +492,9 @@ func runSeqHistory(eng *kb.Engine, engName string, b *seqBehaviour, rnd *rand.Ra
 		}
 		if last {
 			rd.sweep(rnd, b.NKeys, b.Base, cur, opt.finalFrac, opt.streams)
+			if opt.readFaults {
+				rd.faultSweep(rnd, b.NKeys, b.Base, cur)
+			}
 		} else if frac > 0 {
 			rd.sweep(rnd, b.NKeys, b.Base, cur, frac, opt.streams)
 		}
@@ -485,6 +535,7 @@ type seqOptions struct {
 	api           string // "" = native backend, "etcd" = through the etcd-compatible server
 	noTTL         bool
 	streams       bool
+	readFaults    bool
 	finalFrac     float64
 	keyNames      []string
 	eventKeys     []int
@@ -501,6 +552,7 @@ func cmdSeqRun(args []string) int {
 	report := fs.String("report", "", "report output")
 	engine := fs.String("engine", "memkv", "engine, or comma separated list (then an agreement transcript is written)")
 	agree := fs.String("agree", "", "agreement trace output (several engines)")
+	readFaults := fs.Bool("readfaults", false, "after the final sweep: point and limited reads under one transient iterator error")
 	shard := fs.Int("shard", 0, "shard")
 	shards := fs.Int("shards", 1, "shards")
 	seed := fs.Int64("seed", 1, "seed")
@@ -594,7 +646,7 @@ func cmdSeqRun(args []string) int {
 		bad := false
 		for _, en := range names {
 			rnd := rand.New(rand.NewSource(*seed*7919 + int64(n)))
-			evs, transcript, notes, reads := runSeqHistory(engs[en], en, &b, rnd, *frac, seqOptions{streams: *streams && *apiKind == "", finalFrac: *finalFrac, api: *apiKind, ttlMs: *ttlSec * 1000, keyNames: keyNames, eventKeys: eventKeys})
+			evs, transcript, notes, reads := runSeqHistory(engs[en], en, &b, rnd, *frac, seqOptions{readFaults: *readFaults, streams: *streams && *apiKind == "", finalFrac: *finalFrac, api: *apiKind, ttlMs: *ttlSec * 1000, keyNames: keyNames, eventKeys: eventKeys})
 			rep.Reads += reads
 			rep.Events += len(evs)
 			for _, e := range evs {
